@@ -14,9 +14,4 @@ theorem windowPred_def (s e : Option Nat) (lm : Nat) :
   cases s <;> cases e <;>
     simp [windowPred, PlaybackModel.Source.windowStartCmp, PlaybackModel.Source.windowEndCmp, PlaybackModel.Atoms.Cmp.nat]
 
-/-- **source constants**: the key layout the model's `base` / `fullRoot` / `metaRoot` are written with -/
-theorem keyLayout_as_in_source :
-    PlaybackModel.Source.s3FullKey = "tape_recorder_recordings/{key_prefix}full/{id}" ∧
-    PlaybackModel.Source.s3MetadataKey = "tape_recorder_recordings/{key_prefix}metadata/{id}" := by decide
-
 end PlaybackModel.S3
